@@ -23,6 +23,8 @@ def main():
     extra = []
     for k, v in spec.get('replay_opts', {}).items():
         extra += ['--opt', '%s=%s' % (k, v)]
+    for k, v in (spec.get('runtime_opts', lambda s: {})(sut)).items():
+        extra += ['--opt', '%s=%s' % (k, v)]
     for kv in sys.argv[3:]:
         extra += ['--opt', kv]
     p = subprocess.run([exe, '--replay', path] + extra, env=runner.env())
